@@ -107,6 +107,8 @@ def make_value(schema, seed, fault_rate=0.0, kinds=TOP_FAULTS):
             return 'custom:' + '/'.join(map(str, pk))     # custom scalar: pass-through
         if is_abstract_type(t):
             poss = schema.get_possible_types(t)
+            if not poss:
+                return None
             obj = poss[(x >> 12) % len(poss)]
             return {'__typename': obj.name, '__pk': pk}
         return {'__typename': t.name, '__pk': pk}
